@@ -346,7 +346,7 @@ PROPS["C18"] = {
 # the property that "owns" the function (the seeded changes of rounds 3-5 were mostly changes in shared code) ----
 _CLIENT = ["Tie/ClientScannerOk.v", "Tie/BytesAgree.v", "Tie/ClientAgree.v"]
 _EXTRA_TIES = {
-    "C01": _CLIENT + ["Tie/CommandsAgree.v"],
+    "C01": _CLIENT + ["Tie/CommandsAgree.v", "Tie/CanAgree.v"],
     "C02": _CLIENT + ["Tie/CommandsAgree.v"],
     "C04": _CLIENT + ["Tie/LayoutsAgree.v", "Tie/ConfAgree.v", "Tie/EmuAgree.v"],
     "C05": ["Tie/LayoutsAgree.v"],
@@ -356,7 +356,10 @@ _EXTRA_TIES = {
     "C11": _CLIENT + ["Tie/ConfAgree.v", "Tie/EmuAgree.v"],
     "C12": _CLIENT,
     "C13": _CLIENT + ["Tie/CommandsAgree.v"],
-    "C15": _CLIENT + ["Tie/CommandsAgree.v"],
+    "C15": _CLIENT + ["Tie/CommandsAgree.v", "Tie/CanAgree.v"],
+    "C09": ["Tie/CanAgree.v"],
+    "C14": ["Tie/CanAgree.v"],
+    "C08": ["Tie/CanAgree.v"],
     "C17": ["Tie/EmuAgree.v"],
     "C19": _CLIENT + ["Tie/LayoutsAgree.v"],
 }
